@@ -350,6 +350,112 @@ pub fn run(env: &Env, run: &Run) -> (Stats, Coverage) {
             }
         }));
     }
+    // (b5) long runs of transparent characters on both sides of ZWNJ
+    {
+        let ends: [u32; 6] = [D, L, R, 0x61, VIRAMA, T];
+        let ks: [usize; 13] = [0, 1, 2, 3, 7, 8, 9, 31, 32, 33, 63, 64, 65];
+        let mut labels: Vec<(Vec<u32>, usize)> = Vec::new();
+        for &x in &ends {
+            for &y in &ends {
+                for &k in &ks {
+                    for &j in &ks {
+                        let mut l = vec![x];
+                        l.extend(std::iter::repeat(T).take(k));
+                        let pos = l.len();
+                        l.push(ZWNJ);
+                        l.extend(std::iter::repeat(T).take(j));
+                        l.push(y);
+                        labels.push((l, pos));
+                    }
+                }
+            }
+        }
+        let strs: Vec<String> = labels.iter().map(|(l, _)| from_cps(l)).collect();
+        let idx: std::collections::HashMap<&str, usize> = strs.iter().enumerate().map(|(i, s)| (s.as_str(), i)).collect();
+        st.merge(run_family(&strs, |s, st| {
+            let (l, pos) = &labels[idx[s]];
+            for p in [*pos, 0, pos.saturating_sub(1), pos + 1, l.len() - 1] {
+                check_rule(env, CtxRule::Zwnj, l, s, p, st);
+            }
+            check_rule(env, CtxRule::Zwj, l, s, *pos, st);
+        }));
+    }
+    // (b6) the two scans of the ZWNJ rule as finite automata, tested for every length (W-method):
+    // left context read towards the start with the right side fixed to a dual-joining letter,
+    // and right context read towards the end with the left side fixed likewise
+    let wm = {
+        use crate::wmethod::explore;
+        // symbols: 0 D, 1 L, 2 R, 3 T (non-virama), 4 U (non-joining), 5 V (virama, itself transparent)
+        let sym_cp: [u32; 6] = [D, L, R, T, 0x61, VIRAMA];
+        // backward scan, characters in the order they are inspected (nearest first)
+        // states: 0 start, 1 scanning a transparent run, 2 satisfied, 3 failed
+        let back = explore(
+            0u8,
+            6,
+            |s, a| match (*s, a) {
+                (0, 5) => 2,              // virama immediately before: true whatever follows
+                (0, 3) | (1, 3) | (1, 5) => 1, // transparent (a virama deeper in the run is just transparent)
+                (0, 0) | (0, 1) | (1, 0) | (1, 1) => 2,
+                (0, _) | (1, _) => 3,
+                (x, _) => x,
+            },
+            |s| *s == 2,
+        )
+        .0
+        .minimize();
+        // forward scan: states 0 scanning, 1 satisfied, 2 failed
+        let fwd = explore(
+            0u8,
+            6,
+            |s, a| match (*s, a) {
+                (0, 3) | (0, 5) => 0,
+                (0, 0) | (0, 2) => 1,
+                (0, _) => 2,
+                (x, _) => x,
+            },
+            |s| *s == 1,
+        )
+        .0
+        .minimize();
+        let m = run.tier.pick(3, 5);
+        let mut tests = 0usize;
+        for (side, dfa) in [("left", &back), ("right", &fwd)] {
+            let suite = dfa.wmethod_suite(m);
+            tests += suite.len();
+            let labels: Vec<(Vec<u32>, usize)> = suite
+                .iter()
+                .map(|w| {
+                    let ctx: Vec<u32> = w.iter().map(|a| sym_cp[*a]).collect();
+                    if side == "left" {
+                        // word lists characters nearest-first: reverse it to build the label
+                        let mut l: Vec<u32> = ctx.iter().rev().copied().collect();
+                        let pos = l.len();
+                        l.push(ZWNJ);
+                        l.push(D);
+                        (l, pos)
+                    } else {
+                        let mut l = vec![D, ZWNJ];
+                        l.extend(ctx);
+                        (l, 1)
+                    }
+                })
+                .collect();
+            let strs: Vec<String> = labels.iter().map(|(l, _)| from_cps(l)).collect();
+            let words: Vec<&Vec<usize>> = suite.iter().collect();
+            let idx: std::collections::HashMap<&str, usize> = strs.iter().enumerate().map(|(i, s)| (s.as_str(), i)).collect();
+            st.merge(run_family(&strs, |s, st| {
+                let i = idx[s];
+                let (l, pos) = &labels[i];
+                let e = check_rule(env, CtxRule::Zwnj, l, s, *pos, st);
+                // the automaton and the declarative reference must agree as well
+                if (e == CtxExpect::True) != dfa.run(words[i]) {
+                    st.caps_hit.push(format!("MACHINERY: ZWNJ {} automaton disagrees with the declarative reference on {:?}", side, l));
+                }
+            }));
+        }
+        json!({"automata": {"left_context_states": back.trans.len(), "right_context_states": fwd.trans.len()}, "extra_states_allowed": m, "tests": tests,
+            "claim": "if all tests pass, the backward and the forward scan of the ZWNJ rule agree with RFC 5892 A.1 for contexts of EVERY length over {D,L,R,T,non-joining,virama}, provided each scan has at most (states + extra) states"})
+    };
     // (c) registry over u32
     let exhaustive_u32 = run.tier == Tier::Thorough;
     if exhaustive_u32 {
@@ -368,14 +474,14 @@ pub fn run(env: &Env, run: &Run) -> (Stats, Coverage) {
     st.sample(json!({"rule": "rule_middle_dot", "label": ["l", "U+00B7"], "position": 1, "expected": "Ok(false) or Undefined (After lies outside the label)"}));
     st.sample(json!({"rule": "rule_katakana_middle_dot", "label": ["U+30FB", "X"], "position": 0, "expected": "Ok(true) iff Script(X) in {Hiragana,Katakana,Han} per Scripts-6.3.0, for every scalar X"}));
     let cov = Coverage {
-        rule: format!("(a) every scalar value X substituted into {} role templates (1-deviation from a fixed label) + each of the 8 rule functions on [X],0; (b) every label of length <= {} over {{D,L,R,T,a,virama,ZWNJ,ZWJ}} and of length <= {} over the 14 script/digit/punctuation symbols, every rule at every position in 0..=len+1, usize::MAX-1, usize::MAX; (b3) every ordered pair of equal-byte-length labels of length <= 3/4 over 12 symbols presented one after the other in the same allocation; (b4) two-call histories: a rule call on label A at position p followed by a rule call on a different label B of equal byte length in the same allocation at q >= p, all pairs of labels of length <= 3/4 over 6 symbols; (c) registry on u32; oracle = RFC 5892 App. A conditions over the pinned 6.3.0 Scripts/DerivedJoiningType/UnicodeData(ccc=9), with Undefined tolerated only where a named neighbour lies outside the label; non-trivial = cases where the RFC condition is true", tpls.len(), n1, n2),
+        rule: format!("(a) every scalar value X substituted into {} role templates (1-deviation from a fixed label) + each of the 8 rule functions on [X],0; (b) every label of length <= {} over {{D,L,R,T,a,virama,ZWNJ,ZWJ}} and of length <= {} over the 14 script/digit/punctuation symbols, every rule at every position in 0..=len+1, usize::MAX-1, usize::MAX; (b3) every ordered pair of equal-byte-length labels of length <= 3/4 over 12 symbols presented one after the other in the same allocation; (b4) two-call histories: a rule call on label A at position p followed by a rule call on a different label B of equal byte length in the same allocation at q >= p, all pairs of labels of length <= 3/4 over 6 symbols; (b5) runs of 0..65 transparent characters on both sides of ZWNJ between every pair of end classes; (b6) complete W-method suites of the backward and forward scan automata of the ZWNJ rule; (c) registry on u32; oracle = RFC 5892 App. A conditions over the pinned 6.3.0 Scripts/DerivedJoiningType/UnicodeData(ccc=9), with Undefined tolerated only where a named neighbour lies outside the label; non-trivial = cases where the RFC condition is true", tpls.len(), n1, n2),
         alphabet: json!({"joining": ["U+0626 D", "U+A872 L", "U+0629 R", "U+05BF T", "a", "U+094D virama", "U+200C", "U+200D"],
             "scripts": ["U+30FB", "U+3042", "U+30A2", "U+6F22", "a", "U+0660", "U+06F0", "U+05F3", "U+05F4", "U+05D0", "U+0375", "U+03B1", "U+00B7", "l"],
             "templates": tpls.iter().map(|t| json!({"rule": t.rule.name(), "label": t.label.iter().map(|o| o.map(|v| format!("U+{:04X}", v)).unwrap_or("X".into())).collect::<Vec<_>>(), "pos": t.pos})).collect::<Vec<_>>()}),
         bound_completed: format!("sweep: all 1,112,064 scalar values x {} templates; trees: length <= {} (8 symbols), <= {} (14 symbols); registry: {}", tpls.len(), n1, n2, if exhaustive_u32 { "all 2^32 values" } else { "0..=0x1FFFFF + lattice" }),
         exhaustive: false,
         assumptions: vec!["labels longer than the tree bound are covered only through the role templates; the rules are finite-state over (own code point, neighbour classes), every class is in the alphabet".into()],
-        extra: json!({}),
+        extra: json!({"wmethod_zwnj": wm}),
     };
     (st, cov)
 }
